@@ -18,6 +18,7 @@
 package c11
 
 import (
+	"bytes"
 	"fmt"
 	"strings"
 	"sync"
@@ -136,9 +137,12 @@ type stream struct {
 	sentSinceBind int
 	lostBeforeUnbind bool
 	epoch  int
+	written   []rtp.Packet // packets written since the last bind by sequential, unheld calls
+	notSerial bool         // some write of this binding overlapped a held next writer
 }
 
 type run11 struct {
+	buildRand vf.Rand // generator state the interceptor was built from: builds an identical twin
 	c      *vf.Case
 	kind   zoo.Kind
 	b      *zoo.Built
@@ -205,12 +209,13 @@ func (rn *run11) ctx() string {
 }
 
 func execute(c *vf.Case, kind zoo.Kind, seq []string) *run11 {
+	buildRand := *c.R
 	b, err := zoo.Build(c.R, kind, zoo.Opts{Interval: interval})
 	if err != nil {
 		c.Violation("build/"+kind.String(), "%v", err)
 		return nil
 	}
-	rn := &run11{c: c, kind: kind, b: b, rg: rig.New(b.I), seq: seq, nextID: 1}
+	rn := &run11{c: c, kind: kind, b: b, rg: rig.New(b.I), seq: seq, nextID: 1, buildRand: buildRand}
 	rn.rg.BlockAllowance = time.Hour
 	// the RTCP writer fails: always, or from some call on (loops must keep running and stop on Close)
 	switch c.R.Intn(4) {
@@ -406,6 +411,7 @@ func (rn *run11) bindStream(s *stream) {
 		s.ts += 900000
 		s.sentSinceBind = 0
 	}
+	s.written, s.notSerial = nil, false
 }
 
 func (rn *run11) unbind(s *stream) {
@@ -473,6 +479,7 @@ func (rn *run11) traffic() {
 			payload := gen.Payload(rn.c.R, 40, id)
 			w := s.w
 			s.sentSinceBind++
+			s.written = append(s.written, rtp.Packet{Header: h.Clone(), Payload: append([]byte(nil), payload...)})
 			started = append(started, rn.rg.Go("write-rtp", func() { _, _ = w.Write(&h, payload, interceptor.Attributes{}) }))
 			synctest.Wait()
 		}
@@ -571,6 +578,7 @@ func (rn *run11) parkRetransmission() (release func()) {
 			rn.nextID++
 			w := s.w
 			s.sentSinceBind++
+			s.notSerial = true
 			rn.pending = append(rn.pending, rn.rg.Go("write-rtp", func() { _, _ = w.Write(&h, payload, interceptor.Attributes{}) }))
 			synctest.Wait()
 		}
@@ -644,6 +652,7 @@ func (rn *run11) close(mode int) {
 					payload := gen.Payload(rn.c.R, 40, rn.nextID)
 					rn.nextID++
 					s.sentSinceBind++
+					s.notSerial = true
 					heldCalls = append(heldCalls, rn.rg.Go("write-rtp-held", func() { _, _ = w.Write(&h, payload, interceptor.Attributes{}) }))
 					synctest.Wait()
 				}
@@ -905,6 +914,40 @@ func (rn *run11) checkFreshAfterRebind(s *stream) {
 						"sequence %v: SSRC %d rebound and received a gap-free run; NACK %v was generated", rn.seq, s.opts.SSRC, n.Nacks)
 					return
 				}
+			}
+		}
+	case rn.kind == zoo.FlexFEC && s.local && !s.notSerial && !s.boundAfterClose:
+		// relational: a re-bound stream must emit exactly what a fresh interceptor of the same
+		// configuration emits for the packets written since the re-bind (FEC sequence numbers,
+		// masks and payloads are a function of those packets only)
+		tr := rn.buildRand
+		tb, err := zoo.Build(&tr, rn.kind, zoo.Opts{Interval: interval})
+		if err != nil {
+			return
+		}
+		tg := obs.NewRTPGate(rn.rg.Clk, s.opts.SSRC)
+		tw := tb.I.BindLocalStream(zoo.Info(s.opts), tg)
+		for _, p := range s.written {
+			h := p.Header.Clone()
+			_, _ = tw.Write(&h, append([]byte(nil), p.Payload...), interceptor.Attributes{})
+		}
+		_ = tb.I.Close()
+		got, want := s.gate.Events(), tg.Events()
+		rn.c.Add("rebinds_compared_with_fresh_twin", 1)
+		rn.c.Add("rebind_twin_packets_compared", int64(len(want)))
+		if len(got) != len(want) {
+			rn.c.Violation("stale-state-after-rebind/flexfec/packet-count-differs-from-fresh-interceptor",
+				"sequence %v: SSRC %d re-bound, %d packets written since: next writer saw %d packets, a fresh interceptor emits %d", rn.seq, s.opts.SSRC, len(s.written), len(got), len(want))
+			return
+		}
+		for i := range want {
+			g, w := got[i], want[i]
+			if g.Header.SSRC != w.Header.SSRC || g.Header.SequenceNumber != w.Header.SequenceNumber || g.Header.PayloadType != w.Header.PayloadType ||
+				g.Header.Timestamp != w.Header.Timestamp || !bytes.Equal(g.Payload, w.Payload) {
+				rn.c.Violation("stale-state-after-rebind/flexfec/packet-differs-from-fresh-interceptor",
+					"sequence %v: SSRC %d re-bound, %d packets written since: packet #%d at the next writer is ssrc=%d seq=%d ts=%d payload=%x, a fresh interceptor emits ssrc=%d seq=%d ts=%d payload=%x",
+					rn.seq, s.opts.SSRC, len(s.written), i, g.Header.SSRC, g.Header.SequenceNumber, g.Header.Timestamp, g.Payload, w.Header.SSRC, w.Header.SequenceNumber, w.Header.Timestamp, w.Payload)
+				return
 			}
 		}
 	case rn.kind == zoo.Stats && s.local && rn.b.StatsGetter != nil:
